@@ -408,13 +408,27 @@ func checkCanvas(r *fw.R, res int, cs int, order int) {
 	b := cv.Path(oracle.ClosedData(pts(4, 3, 10, 3, 10, 8, 4, 8)))
 	cols := []color.RGBA{red, blue}
 	paths := []*canvas.Path{a, b}
-	if order == 1 {
+	if order == 1 || order == 3 {
 		cols[0], cols[1] = cols[1], cols[0]
 		paths[0], paths[1] = paths[1], paths[0]
 	}
-	for k := 0; k < 2; k++ {
-		ctx.SetFillColor(cols[k])
-		ctx.DrawPath(0, 0, paths[k])
+	if order >= 2 {
+		// one DrawPath call with both paths ("draws the paths", each one a draw of its own: later draws cover
+		// earlier ones also within one call): the second rectangle runs the other way round (order 2,
+		// NonZero) or the fill rule is EvenOdd (order 3) - as ONE path the overlap would be left unpainted
+		cols[1] = cols[0]
+		if order == 2 {
+			paths[1] = paths[1].Reverse()
+		} else {
+			ctx.SetFillRule(canvas.EvenOdd)
+		}
+		ctx.SetFillColor(cols[0])
+		ctx.DrawPath(0, 0, paths[0], paths[1])
+	} else {
+		for k := 0; k < 2; k++ {
+			ctx.SetFillColor(cols[k])
+			ctx.DrawPath(0, 0, paths[k])
+		}
 	}
 	img := rasterizer.Draw(c, canvas.DPMM(dpmm), colorSpace(cs))
 	img2 := rasterizer.Draw(c, canvas.DPMM(dpmm), colorSpace(cs))
@@ -727,7 +741,7 @@ func families(tier string) []fw.Family {
 		g := oracle.Digits(i, radF...)
 		return fillCase{g[0], g[1], g[2], g[3], g[4], g[5]}
 	}
-	radC := []int{nres, 2, 2}
+	radC := []int{nres, 2, 4}
 	widths := []float64{0.8, 2}
 	radS := []int{len(shapes), nres, len(widths), len(views), 3, 3}
 	fsViews := []int{0, 1}
@@ -783,7 +797,7 @@ func families(tier string) []fw.Family {
 			Check: func(i int64, r *fw.R) { g := oracle.Digits(i, radC...); checkCanvas(r, g[0], g[1], g[2]) },
 			Desc: func(i int64) string {
 				g := oracle.Digits(i, radC...)
-				return fmt.Sprintf("two overlapping rectangles, dpmm=%g colourspace=%d order=%d", resolutions[g[0]], g[1], g[2])
+				return fmt.Sprintf("two overlapping rectangles, dpmm=%g colourspace=%d order=%d (0, 1: one DrawPath each, either order; 2: one DrawPath call with both, the second reversed; 3: one DrawPath call with both under EvenOdd)", resolutions[g[0]], g[1], g[2])
 			}},
 		{Name: "stroke: shapes x resolutions x widths x views x caps x joins", N: oracle.Prod(radS...),
 			Check: func(i int64, r *fw.R) {
